@@ -4,7 +4,8 @@
 From Coq Require Import List ZArith QArith Qcanon Bool Arith Permutation.
 From Dimod Require Import Base.Util Model.Poly Model.HPoly Model.Samples Model.Comb Model.Solve
   Proofs.CombFacts Proofs.CombGray Proofs.PolyFacts Proofs.HPolyFacts Proofs.SamplesFacts
-  Model.Feas Proofs.FeasFacts Gen.Gen_PolyScale Gen.Gen_ExactHoc Proofs.SolveEnum Proofs.SolveComp Proofs.SolveScale Proofs.SolveSamplers.
+  Model.Feas Proofs.FeasFacts Gen.Gen_PolyScale Gen.Gen_ExactHoc Proofs.SolveEnum Proofs.SolveComp Proofs.SolveScale Proofs.SolveSamplers
+  Gen.Gen_Deferred Model.Deferred Proofs.DeferredFacts Model.ParseInit Proofs.ParseInitFacts Model.ChkC07 Proofs.ChkC07Deferred.
 Import ListNotations.
 Local Open Scope nat_scope.
 
@@ -127,6 +128,67 @@ Theorem C07_mixin_energy_is_submitted_energy :
      honest (energy p) (sample_same_vartype child p)).
 Proof. exact mixin_energy_is_submitted_energy. Qed.
 Print Assumptions C07_mixin_energy_is_submitted_energy.
+
+(* ------------------------------------------------------------------ *)
+(* future-backed sample sets (SampleSet.from_future, nonblocking_sample_method): the implemented
+   method may answer with a sample set that is not resolved when the mixin adjusts vartype and
+   offset.  Which arguments the deferred hook forwards is GENERATED from the source
+   (Gen/Gen_Deferred.v); with them, resolving the deferred set is the immediate adjustment, at any
+   nesting depth, and change_vartype / the mixins never block. *)
+Theorem C07_deferred_change_vartype :
+  forall (conv : list Qc -> list Qc) (off : Qc) (s : sset),
+    ss_resolve (change_vartype_ss conv off s) = change_vartype conv off (ss_resolve s) /\
+    ss_done (change_vartype_ss conv off s) = ss_done s.
+Proof. exact deferred_change_vartype. Qed.
+Print Assumptions C07_deferred_change_vartype.
+
+Theorem C07_deferred_change_vartype_copy :
+  forall (conv : list Qc -> list Qc) (off : Qc) (s : sset),
+    ss_resolve (change_vartype_copy_ss conv off s) = change_vartype conv off (ss_resolve s).
+Proof. exact change_vartype_copy_ss_resolve. Qed.
+Print Assumptions C07_deferred_change_vartype_copy.
+
+Theorem C07_deferred_stack :
+  forall (levels : list (level * Qc)) (base : sset),
+    ss_resolve (stack_ss levels base) = stack_result levels (ss_resolve base) /\
+    ss_done (stack_ss levels base) = ss_done base.
+Proof. exact deferred_stack. Qed.
+Print Assumptions C07_deferred_stack.
+
+Theorem C07_mixin_deferred_energy_is_submitted_energy :
+  forall (child : poly -> sset) (vars : list label) (p : poly),
+    NoDup vars -> mentions_only p vars ->
+    (let q := to_binary_all vars p in
+     well_formed vars (ss_resolve (child (drop_offset q))) ->
+     honest (energy (drop_offset q)) (ss_resolve (child (drop_offset q))) ->
+     honest (energy p) (ss_resolve (sample_spin_via_qubo_ss child vars p))) /\
+    (let q := to_spin_all vars p in
+     well_formed vars (ss_resolve (child (drop_offset q))) ->
+     honest (energy (drop_offset q)) (ss_resolve (child (drop_offset q))) ->
+     honest (energy p) (ss_resolve (sample_binary_via_ising_ss child vars p))) /\
+    (honest (energy (drop_offset p)) (ss_resolve (child (drop_offset p))) ->
+     honest (energy p) (ss_resolve (sample_same_vartype_ss child p))).
+Proof. exact mixin_deferred_energy_is_submitted_energy. Qed.
+Print Assumptions C07_mixin_deferred_energy_is_submitted_energy.
+
+Theorem C07_mixin_deferred_nonblocking :
+  forall (child : poly -> sset) (vars : list label) (p : poly),
+    ss_done (sample_spin_via_qubo_ss child vars p) = ss_done (child (drop_offset (to_binary_all vars p))) /\
+    ss_done (sample_binary_via_ising_ss child vars p) = ss_done (child (drop_offset (to_spin_all vars p))) /\
+    ss_done (sample_same_vartype_ss child p) = ss_done (child (drop_offset p)).
+Proof. exact mixin_deferred_nonblocking. Qed.
+Print Assumptions C07_mixin_deferred_nonblocking.
+
+(* what a passing CStack case of the correspondence check establishes: the table the implementation
+   resolved to is the immediate stack of adjustments of the base's table, and the pending flag it
+   showed is the base future's *)
+Theorem C07_check_stack_sound :
+  forall kind pending_seen vars levels base res,
+    check_stack kind pending_seen vars levels base res = true ->
+    res_equiv (stack_result (map (level_of vars) levels) base) res = true /\
+    pending_seen = negb (match kind with FNone => true | FObject hd d => negb hd || d end).
+Proof. exact check_stack_sound. Qed.
+Print Assumptions C07_check_stack_sound.
 
 (* ================================================================== *)
 (* composites: the energies are the ORIGINAL problem's energies *)
@@ -402,6 +464,68 @@ Theorem C07_identity_random_prefix :
     r_rows r = firstn (reads num_reads (length init)) (map conv init ++ extra).
 Proof. exact identity_random_prefix. Qed.
 Print Assumptions C07_identity_random_prefix.
+
+(* Initialized.parse_initial_states, code-shaped (Model/ParseInit.v): the vartype of RAW initial
+   states is inferred from their values exactly as sampleset.infer_vartype does *)
+Theorem C07_infer_vartype_spec :
+  forall rows : list (list Qc),
+    let flat := concat rows in
+    (infer_vartype rows = Some None <-> forall x, In x flat -> x = 1%Qc) /\
+    (infer_vartype rows = Some (Some VBinary) <->
+       (exists x, In x flat /\ x <> 1%Qc) /\ forall x, In x flat -> in_vt VBinary x) /\
+    (infer_vartype rows = Some (Some VSpin) <->
+       (exists x, In x flat /\ x <> 0%Qc /\ x <> 1%Qc) /\ forall x, In x flat -> in_vt VSpin x) /\
+    (infer_vartype rows = None <->
+       (exists x, In x flat /\ x <> 0%Qc /\ x <> 1%Qc) /\ (exists x, In x flat /\ x <> (- (1))%Qc /\ x <> 1%Qc)).
+Proof. exact infer_vartype_spec. Qed.
+Print Assumptions C07_infer_vartype_spec.
+
+Theorem C07_parse_initial_states_honest :
+  forall g num_reads (e : sample -> Qc) bqm_vt vars init extra r,
+    parse_initial_states g num_reads e bqm_vt vars init extra = Some r -> honest e r.
+Proof. exact parse_honest. Qed.
+Print Assumptions C07_parse_initial_states_honest.
+
+(* IdentitySampler / RandomSampler: every value of every returned row lies in the model's domain
+   (raw states: unconditionally - their vartype is the one their values show; a SampleSet of
+   states is assumed to hold values of its own vartype; drawn rows are the generator's) *)
+Theorem C07_parse_initial_states_values_in_domain :
+  forall g num_reads (e : sample -> Qc) bqm_vt vars init extra r,
+    parse_initial_states g num_reads e bqm_vt vars init extra = Some r ->
+    (forall i v, init = Some i -> i_declared i = Some v ->
+                 forall row x, In row (i_rows i) -> In x row -> in_vt v x) ->
+    (forall row x, In row extra -> In x row -> in_vt bqm_vt x) ->
+    forall row x, In row (r_rows r) -> In x row -> in_vt bqm_vt x.
+Proof. exact parse_values_in_domain. Qed.
+Print Assumptions C07_parse_initial_states_values_in_domain.
+
+Theorem C07_parse_initial_states_rejects_unknown_values :
+  forall g num_reads (e : sample -> Qc) bqm_vt vars ls rows extra,
+    (exists x, In x (concat rows) /\ x <> 0%Qc /\ x <> 1%Qc) ->
+    (exists x, In x (concat rows) /\ x <> (- (1))%Qc /\ x <> 1%Qc) ->
+    parse_initial_states g num_reads e bqm_vt vars (Some (mkInit None ls rows)) extra = None.
+Proof. exact parse_rejects_unknown_values. Qed.
+Print Assumptions C07_parse_initial_states_rejects_unknown_values.
+
+Theorem C07_check_parse_sound :
+  forall g num_reads (e : sample -> Qc) spin vars init seen r,
+    check_parse g num_reads e spin vars init seen = true -> seen = Some r ->
+    exists m, honest e m /\ res_equiv m r = true.
+Proof. exact check_parse_sound. Qed.
+Print Assumptions C07_check_parse_sound.
+
+(* SimulatedAnnealingSampler: accepted exactly for num_reads >= 1, num_sweeps >= 1 and no or a
+   two-element all-positive beta_range *)
+Theorem C07_sa_validate_spec :
+  forall num_reads beta_range num_sweeps,
+    sa_validate num_reads beta_range num_sweeps = true <->
+    (1 <= num_reads)%Z /\ (1 <= num_sweeps)%Z /\
+    match beta_range with
+    | None => True
+    | Some l => length l = 2%nat /\ forall b, In b l -> (0 < b)%Qc
+    end.
+Proof. exact sa_validate_spec. Qed.
+Print Assumptions C07_sa_validate_spec.
 
 (* sample_qubo: the BQM built from Q (self-loops folded into linear biases) has, on binary
    samples, the energy of the QUBO as the user wrote it *)
